@@ -128,12 +128,19 @@ def prove(prop, modules, thorough=False):
             for mod in modules:
                 path = os.path.join(LEAN, mod.replace(".", "/") + ".lean")
                 txt = strip_lean_comments(open(path).read())
-                m = re.search(r"^namespace\s+([\w.]+)", txt, re.M)
-                ns = m.group(1) if m else "Neatvi.Props." + mod.split(".")[-1]
-                names = re.findall(r"^theorem\s+([\w.'?!]+)", txt, re.M)
+                # fully qualified names: follow `namespace X` / `end X` through the file
+                stack = []; full = []
+                for line in txt.split("\n"):
+                    m = re.match(r"^namespace\s+([\w.]+)", line)
+                    if m: stack.append(m.group(1)); continue
+                    m = re.match(r"^end\s+([\w.]+)\s*$", line)
+                    if m and stack and stack[-1] == m.group(1): stack.pop(); continue
+                    m = re.match(r"^theorem\s+([\w.'?!]+)", line)
+                    if m: full.append((".".join(stack) + "." if stack else "") + m.group(1))
+                names = [n.split(".")[-1] if False else n for n in full]
                 audit = os.path.join(LEAN, ".lake", "audit_%s.lean" % mod.split(".")[-1])
                 with open(audit, "w") as f:
-                    f.write("import %s\n" % mod + "".join("#print axioms %s.%s\n" % (ns, n) for n in names))
+                    f.write("import %s\n" % mod + "".join("#print axioms %s\n" % n for n in full))
                 env = dict(os.environ, LEAN_PATH=os.path.join(LEAN, ".lake", "build", "lib", "lean"))
                 rc, out = run(["lean", audit], cwd=LEAN, timeout=1200, env=env)
                 seen = set()
@@ -145,7 +152,7 @@ def prove(prop, modules, thorough=False):
                     if bad:
                         res["failed"].append({"file": mod, "line": 0, "theorem": mm.group(1), "msg": "axioms " + ",".join(bad)})
                 for n in names:
-                    if ns + "." + n not in seen:
+                    if n not in seen:
                         res["failed"].append({"file": mod, "line": 0, "theorem": n, "msg": "audit: no axiom report (%s)" % out[-200:].replace("\n", " ")})
             res["discharged"] = len([t for t in res["theorems"] if not t["bad"]])
             res["obligations"] = max(res["obligations"], len(res["theorems"]))
@@ -428,6 +435,7 @@ class Rng:
         return z ^ (z >> 31)
     def below(self, n): return self.next() % n if n > 0 else 0
     def choice(self, xs): return xs[self.below(len(xs))]
+    def pick(self, xs): return xs[self.below(len(xs))]
     def chance(self, num, den): return self.below(den) < num
 
 def hexs(bs):
